@@ -910,6 +910,7 @@ def main(argv):
             "constructors make exactly one constructor call and forward the result. NOT decided: that the delivered contents equal the input "
             "element-for-element for every input (a value property), nor the order iterators yield."
             ' R-RETYPE as a premise (header-erasing conversions keep header and elements in place: equal layouts on the shape matrix, guards evaluated).'
+            ' Round fourteen: R-LAYOUT as a premise (elements written into a block that is too short are not the given contents); R-PARKED also covers `mem::forget` of a caller-supplied parameter without a hand-over.'
         ),
         rule_text="instances = payload fields per allocation region, constructors (length flow, source disarming), loop shape, fast-path guard, delegating constructors",
         trusted_base=["rustc MIR def-use, dominators computed on it", "ptr::write / copy_nonoverlapping semantics", "expression extractor analysis/symx.py"],
